@@ -74,6 +74,11 @@ fn err_class(e: &re_geom::io::Error) -> String {
 #[derive(Clone, Debug, PartialEq, Eq)]
 pub enum RefObj {
     Accept { verts: Vec<[u32; 3]>, tris: Vec<[usize; 3]> },
+    /// Every line is inside the grammar, but some face refers to a vertex (or
+    /// attribute) that the file does not define. `tris` are the listed faces as written
+    /// (zero-based, possibly out of range). There is no faithful mesh for such a file:
+    /// an error is right, and an `Ok` must at least not invent a face.
+    Dangling { verts: Vec<[u32; 3]>, tris: Vec<[usize; 3]> },
     /// Outside the grammar the property spells out: no opinion on the result.
     Unsure(&'static str),
 }
@@ -124,7 +129,7 @@ fn ref_float(tok: &[u8]) -> Option<u32> {
 
 /// One-based index without sign or leading zero, small enough to be meaningful.
 fn ref_index(tok: &[u8]) -> Option<usize> {
-    if tok.is_empty() || tok.len() > 9 || tok[0] == b'0' || !tok.iter().all(u8::is_ascii_digit) {
+    if tok.is_empty() || tok.len() > 18 || tok[0] == b'0' || !tok.iter().all(u8::is_ascii_digit) {
         return None;
     }
     std::str::from_utf8(tok).ok()?.parse::<usize>().ok()
@@ -132,18 +137,24 @@ fn ref_index(tok: &[u8]) -> Option<usize> {
 
 pub fn ref_obj(bytes: &[u8]) -> RefObj {
     use RefObj::*;
-    if bytes.iter().any(|&b| b >= 0x80 || (b < 0x20 && b != b'\n' && b != b'\t')) {
-        return Unsure("byte outside printable ASCII / TAB / LF");
-    }
     let mut verts = vec![];
     let mut tris: Vec<[usize; 3]> = vec![];
     let (mut nvt, mut nvn) = (0usize, 0usize);
     let (mut max_vt, mut max_vn) = (0usize, 0usize);
     for line in bytes.split(|&b| b == b'\n') {
         let mut toks = line.split(|&b| b == b' ' || b == b'\t').filter(|t| !t.is_empty());
-        let Some(item) = toks.next() else { continue };
-        if item[0] == b'#' {
+        let Some(item) = toks.next() else {
+            if line.iter().any(|&b| b != b' ' && b != b'\t') {
+                return Unsure("blank line with bytes other than blank/TAB");
+            }
             continue;
+        };
+        if item[0] == b'#' {
+            // a whole-line comment may hold any bytes at all
+            continue;
+        }
+        if line.iter().any(|&b| b >= 0x80 || (b < 0x20 && b != b'\t')) {
+            return Unsure("data line with a byte outside printable ASCII / TAB");
         }
         let args: Vec<&[u8]> = toks.collect();
         match item {
@@ -206,11 +217,8 @@ pub fn ref_obj(bytes: &[u8]) -> RefObj {
             _ => return Unsure("item other than v/vt/vn/f/#"),
         }
     }
-    if tris.iter().flatten().any(|&i| i >= verts.len()) {
-        return Unsure("vertex index out of range");
-    }
-    if max_vt > nvt || max_vn > nvn {
-        return Unsure("attribute index out of range");
+    if tris.iter().flatten().any(|&i| i >= verts.len()) || max_vt > nvt || max_vn > nvn {
+        return Dangling { verts, tris };
     }
     Accept { verts, tris }
 }
@@ -230,7 +238,40 @@ pub struct GenObj {
     pub mutated: bool,
 }
 
+/// A numeral a hair above or below the midpoint of two adjacent f32 values, written
+/// with all its digits: converting it via f64 (double rounding) lands on the wrong
+/// neighbour about half the time, converting it directly does not.
+fn midpoint_token(rng: &mut Rng) -> String {
+    let bits = ((rng.range(100, 150) as u32) << 23) | (rng.u64() as u32 & 0x007f_ffff);
+    let a = f32::from_bits(bits);
+    let b = f32::from_bits(bits + 1);
+    let m = (a as f64 + b as f64) / 2.0;
+    let mut s = format!("{m:.80}");
+    while s.ends_with('0') {
+        s.pop();
+    }
+    if rng.chance(1, 2) {
+        s.push('1');
+    } else {
+        // just below: decrement the last (non-zero) digit, then nines
+        let last = s.pop().unwrap();
+        if let Some(d) = last.to_digit(10).filter(|&d| d > 0) {
+            s.push(char::from_digit(d - 1, 10).unwrap());
+            s.push_str("9999");
+        } else {
+            s.push(last);
+        }
+    }
+    if rng.chance(1, 2) {
+        s.insert(0, '-');
+    }
+    s
+}
+
 fn num_token(rng: &mut Rng) -> String {
+    if rng.chance(1, 40) {
+        return midpoint_token(rng);
+    }
     let mag = match rng.below(6) {
         0 => 1.0,
         1 => 10.0,
@@ -506,6 +547,27 @@ fn gen_obj_inner(rng: &mut Rng) -> GenObj {
     }
     hot.sort_unstable();
     hot.dedup();
+    if rng.chance(1, 6) {
+        // whole-line comments may hold any bytes: Latin-1, UTF-8, control characters
+        for &(st, ln) in &lines {
+            let line = &mut text[st..st + ln];
+            let Some(h) = line.iter().position(|&b| b != b' ' && b != b'\t') else { continue };
+            if line[h] != b'#' {
+                continue;
+            }
+            for b in &mut line[h + 1..] {
+                if *b != b'\n' && rng.chance(1, 3) {
+                    let c = match rng.below(4) {
+                        0 => rng.range(0x80, 0xff) as u8,
+                        1 => *rng.pick(&[0xc3u8, 0xa9, 0xe2, 0x82, 0xac, 0xf4, 0xe9]),
+                        2 => *rng.pick(&[0u8, 1, 0x0b, 0x0c, b'\r', 0x1b, 0x7f]),
+                        _ => *b,
+                    };
+                    *b = c;
+                }
+            }
+        }
+    }
     GenObj { text, verts, tris, hot, lines, mutated: false }
 }
 
@@ -564,8 +626,21 @@ pub fn mutate_obj(rng: &mut Rng, g: &mut GenObj) {
             0 | 1 | 2 => {
                 if let Some(i) = pick_line(rng, &lines, b"f") {
                     let k = rng.usize(1, 3);
-                    let w = *rng.pick(&BAD_INDEX);
-                    replace_token(&mut lines[i], k, w.as_bytes());
+                    if rng.chance(1, 3) {
+                        // an index that aliases an existing vertex if it is ever narrowed:
+                        // 2^8, 2^16, 2^24, 2^32, ... plus a valid index
+                        let nv = lines
+                            .iter()
+                            .filter(|l| l.split(|&b| b == b' ' || b == b'\t').find(|t| !t.is_empty()) == Some(&b"v"[..]))
+                            .count()
+                            .max(1) as u64;
+                        let base = *rng.pick(&[1u64 << 8, 1 << 16, 1 << 24, 1 << 31, 1 << 32, 1 << 33, 3 << 32, 1 << 53]);
+                        let w = (base + rng.range(1, nv)).to_string();
+                        replace_token(&mut lines[i], k, w.as_bytes());
+                    } else {
+                        let w = *rng.pick(&BAD_INDEX);
+                        replace_token(&mut lines[i], k, w.as_bytes());
+                    }
                 }
             }
             3 => {
@@ -815,6 +890,35 @@ pub fn run(scn: &ObjScenario, record: bool) -> RunResult {
         }
     }
 
+    // --- R: a file that refers to vertices it does not define has no faithful mesh ------
+    // An error is right. An `Ok` must not invent anything: the listed vertices, and
+    // only faces that are listed (a reader that drops dangling faces is tolerated; one
+    // that wraps or narrows an index onto an existing vertex is not).
+    if let (RefObj::Dangling { verts, tris }, Some(out)) = (&refv, &base_out) {
+        let ok = match out {
+            ObjOut::Err(_) => true,
+            ObjOut::Ok { verts: v, tris: t } => {
+                let mut it = tris.iter();
+                v == verts && t.iter().all(|f| it.any(|g| g == f))
+            }
+        };
+        rr.oracle("R", ok);
+        rr.probe("dangling-index file (reference: error expected)");
+        if !ok {
+            rr.violate(Violation::new(
+                "R",
+                "invented-face-or-vertex",
+                format!(
+                    "the file lists faces {:?}{} over {} vertices (some index refers to nothing), yet parse_obj answered {}",
+                    &tris[..tris.len().min(4)],
+                    if tris.len() > 4 { "…" } else { "" },
+                    verts.len(),
+                    out.brief()
+                ),
+            ));
+        }
+    }
+
     // --- E: the stream must be invisible when it was merely awkward -------------------
     let (rd_err, eof_stop, eof_resumed) = (ledger.get(K::read_err) + ledger.get(K::read_err_after_eof), ledger.get(K::early_eof), ledger.get(K::early_eof_resumed));
     if rd_err == 0 && eof_resumed == 0 {
@@ -948,6 +1052,7 @@ pub fn run(scn: &ObjScenario, record: bool) -> RunResult {
         rr.notes.insert("delivered_len".into(), delivered.to_string());
         rr.notes.insert("reference".into(), match &refv {
             RefObj::Accept { verts, tris } => format!("Accept({} verts, {} tris)", verts.len(), tris.len()),
+            RefObj::Dangling { verts, tris } => format!("Dangling({} verts, {} tris)", verts.len(), tris.len()),
             RefObj::Unsure(w) => format!("Unsure({w})"),
         });
         rr.notes.insert("parse_obj".into(), base_out.as_ref().map_or("panicked".into(), |o| o.brief()));
